@@ -3,6 +3,7 @@
   block phase (`sepStage_spec`), loop (`sepLoop_inv`), missing entries (`addSepNew_inv`), SortBlocks.
 -/
 import ModVerif.Proofs.EditMoreSepE
+import ModVerif.Proofs.EditRefineSorted
 set_option linter.unusedSimpArgs false
 namespace ModVerif.Modfile.Edit
 open ModVerif ModVerif.Modfile
@@ -60,11 +61,23 @@ theorem foldl_addSepNew_inv (ctx : SepCtx) (ws : List Want) : ∀ e : EFile, Inv
     rcases addSepNew_inv ctx e w (hne w List.mem_cons_self) hi hbd hbi with ⟨h1, h2, h3⟩
     exact ih _ h1 (fun x hx => hne x (List.mem_cons_of_mem _ hx)) h2 h3
 
-/-- the tail of SetRequireSeparateIndirect (loop, missing entries, SortBlocks) from a good block phase -/
-theorem sepTail_inv (e e' : EFile) (req : List Want) (perm : List Want → List Want) (hperm : ∀ l, (perm l).Perm l)
+theorem foldl_addSepNew_go (ctx : SepCtx) (ws : List Want) : ∀ e : EFile, (ws.foldl (addSepNew ctx) e).f.go = e.f.go := by
+  induction ws with
+  | nil => intro e; rfl
+  | cons w ws ih => intro e; simp only [List.foldl_cons]; rw [ih]; rfl
+
+theorem foldl_addNewRequire_go (ws : List Want) : ∀ e : EFile,
+    (ws.foldl (fun e w => addNewRequire e w.path w.vers w.indirect) e).f.go = e.f.go := by
+  induction ws with
+  | nil => intro e; rfl
+  | cons w ws ih => intro e; simp only [List.foldl_cons]; rw [ih]; rfl
+
+/-- the tail of SetRequireSeparateIndirect (loop, missing entries, SortBlocks) from a good block phase: the result is
+    `SortBlocks` of a state that satisfies the invariant -/
+theorem sepTail_presort (e e' : EFile) (req : List Want) (perm : List Want → List Want) (hperm : ∀ l, (perm l).Perm l)
     (hg : GoodWant req) (hi : Inv e) (hlive : ∀ r ∈ e.f.require, liveRq r = true) (hset : NoNestedIndirectMarker e)
     (ctx : SepCtx) (stmts : List Expr) (hgood : SepGood e.f.syn.stmts ctx.directIdx ctx.indirectIdx stmts)
-    (h : sepTail e req perm ctx stmts = .ok e') : Inv e' := by
+    (h : sepTail e req perm ctx stmts = .ok e') : ∃ e1, Inv e1 ∧ e' = sortBlocks e1 ∧ e1.f.go = e.f.go := by
   unfold sepTail at h
   rw [needMap_distinct false req [] (by simpa using hg.1)] at h
   simp only [bind, Except.bind, List.nil_append] at h
@@ -89,13 +102,21 @@ theorem sepTail_inv (e e' : EFile) (req : List Want) (perm : List Want → List 
       rw [entries_require]; exact hm'
     have hne : ∀ w ∈ (perm req).filter (fun w => !have'.contains w.path), w.path ≠ [] :=
       fun w hw => hg.2 w ((hperm req).subset (List.mem_filter.1 hw).1)
-    exact sortBlocks_inv _ (foldl_addSepNew_inv ctx _ _ hi1 hne hbd' hbi')
+    refine ⟨_, foldl_addSepNew_inv ctx _ _ hi1 hne hbd' hbi', rfl, ?_⟩
+    exact foldl_addSepNew_go ctx _ _
 
-/-- **SetRequireSeparateIndirect preserves the tree invariant** — when every typed requirement is live (a Cleanup has
-    just run) and under `NoNestedIndirectMarker` (cf. `setRequire_inv`) -/
-theorem setRequireSeparateIndirect_inv (e e' : EFile) (req : List Want) (perm : List Want → List Want)
+theorem sepTail_inv (e e' : EFile) (req : List Want) (perm : List Want → List Want) (hperm : ∀ l, (perm l).Perm l)
+    (hg : GoodWant req) (hi : Inv e) (hlive : ∀ r ∈ e.f.require, liveRq r = true) (hset : NoNestedIndirectMarker e)
+    (ctx : SepCtx) (stmts : List Expr) (hgood : SepGood e.f.syn.stmts ctx.directIdx ctx.indirectIdx stmts)
+    (h : sepTail e req perm ctx stmts = .ok e') : Inv e' := by
+  rcases sepTail_presort e e' req perm hperm hg hi hlive hset ctx stmts hgood h with ⟨e1, h1, rfl, _⟩
+  exact sortBlocks_inv _ h1
+
+/-- SetRequireSeparateIndirect ends with `SortBlocks` of a state satisfying the invariant -/
+theorem setRequireSeparateIndirect_presort (e e' : EFile) (req : List Want) (perm : List Want → List Want)
     (hperm : ∀ l, (perm l).Perm l) (hg : GoodWant req) (hi : Inv e) (hlive : ∀ r ∈ e.f.require, liveRq r = true)
-    (hset : NoNestedIndirectMarker e) (h : setRequireSeparateIndirect e req perm = .ok e') : Inv e' := by
+    (hset : NoNestedIndirectMarker e) (h : setRequireSeparateIndirect e req perm = .ok e') :
+    ∃ e1, Inv e1 ∧ e' = sortBlocks e1 ∧ e1.f.go = e.f.go := by
   rw [setRSI_eq] at h
   cases h1 : sepStage1 e.f.syn.stmts (scanStmts e.f.syn.stmts 0 {}) with
   | error err => simp [h1] at h
@@ -108,6 +129,54 @@ theorem setRequireSeparateIndirect_inv (e e' : EFile) (req : List Want) (perm : 
       rcases r2 with ⟨s2, iI, iO⟩
       simp only [h2] at h
       have hgood := sepStage_spec e.f.syn.stmts hi.tree.shape hi.view2 _ (scan_inv _) h1 h2
-      exact sepTail_inv e e' req perm hperm hg hi hlive hset _ s2 hgood h
+      exact sepTail_presort e e' req perm hperm hg hi hlive hset _ s2 hgood h
+
+/-- SetRequire ends with `SortBlocks` of a state satisfying the invariant -/
+theorem setRequire_presort (e e' : EFile) (req : List Want) (perm : List Want → List Want) (hperm : ∀ l, (perm l).Perm l)
+    (hg : GoodWant req) (hi : Inv e) (hlive : ∀ r ∈ e.f.require, liveRq r = true) (hset : NoNestedIndirectMarker e)
+    (h : setRequire e req perm = .ok e') : ∃ e1, Inv e1 ∧ e' = sortBlocks e1 ∧ e1.f.go = e.f.go := by
+  unfold setRequire at h
+  rw [needMap_distinct true req [] (by simpa using hg.1)] at h
+  simp only [bind, Except.bind, List.nil_append] at h
+  cases hr : setRequireLoop e.f.require req e.f.syn with
+  | error err => simp [hr] at h
+  | ok res =>
+    rcases res with ⟨rq, need', syn'⟩
+    simp only [hr, pure, Except.pure, Except.ok.injEq] at h
+    subst h
+    rcases setRequireLoop_abs _ _ _ _ _ _ hg hr with ⟨_, hsub⟩
+    rcases setRequireLoop_inv (A := segA_require e.f) (C := segC_require e.f) e.next e.f.require [] req e.f.syn rq need' syn'
+      hg hlive hi.tree (by simp only [List.nil_append]; rw [← entries_require]; exact hi.mtch) hset hr with ⟨hw', hm'⟩
+    have hi1 : Inv (⟨{ e.f with require := rq, syn := syn' }, e.next⟩ : EFile) := by
+      refine ⟨hw', ?_, hi.tinv.of_same rfl rfl rfl (Nat.le_refl _)⟩
+      simp only [List.nil_append] at hm'
+      rw [entries_require]; exact hm'
+    have hne : ∀ w ∈ perm need', w.path ≠ [] := fun w hw => hg.2 w (hsub.subset ((hperm need').subset hw))
+    refine ⟨_, foldl_addNewRequire_inv (perm need') _ hi1 hne, rfl, ?_⟩
+    exact foldl_addNewRequire_go (perm need') _
+
+/-- **SetRequireSeparateIndirect preserves the tree invariant** — when every typed requirement is live (a Cleanup has
+    just run) and under `NoNestedIndirectMarker` (cf. `setRequire_inv`) -/
+theorem setRequireSeparateIndirect_inv (e e' : EFile) (req : List Want) (perm : List Want → List Want)
+    (hperm : ∀ l, (perm l).Perm l) (hg : GoodWant req) (hi : Inv e) (hlive : ∀ r ∈ e.f.require, liveRq r = true)
+    (hset : NoNestedIndirectMarker e) (h : setRequireSeparateIndirect e req perm = .ok e') : Inv e' := by
+  rcases setRequireSeparateIndirect_presort e e' req perm hperm hg hi hlive hset h with ⟨e1, h1, rfl, _⟩
+  exact sortBlocks_inv _ h1
+
+/-- **blocks sorted after the bulk requirement setters**: every block of the result — exclude blocks under the semantic
+    order included — is sorted by the comparator the code selects for it -/
+theorem bulk_blocks_sorted (e e' : EFile) (req : List Want) (perm : List Want → List Want)
+    (hperm : ∀ l, (perm l).Perm l) (hg : GoodWant req) (hi : Inv e) (hlive : ∀ r ∈ e.f.require, liveRq r = true)
+    (hset : NoNestedIndirectMarker e)
+    (h : setRequire e req perm = .ok e' ∨ setRequireSeparateIndirect e req perm = .ok e') :
+    ∀ b, Expr.lineBlock b ∈ e'.f.syn.stmts → Sorted (onToken (lessFor (semOf e.f) false b.token)) b.lines := by
+  have : ∃ e1, Inv e1 ∧ e' = sortBlocks e1 ∧ e1.f.go = e.f.go := by
+    rcases h with h | h
+    · exact setRequire_presort e e' req perm hperm hg hi hlive hset h
+    · exact setRequireSeparateIndirect_presort e e' req perm hperm hg hi hlive hset h
+  rcases this with ⟨e1, h1, rfl, hgo⟩
+  have hsem : semOf e.f = semOf e1.f := by unfold semOf; rw [hgo]
+  rw [hsem]
+  exact sortBlocks_blocks_sorted e1 h1
 
 end ModVerif.Modfile.Edit
